@@ -4612,6 +4612,9 @@ class ResponseFuture(object):
                                                             decoder=self._protocol_handler.decode_message,
                                                             result_metadata=result_meta)
             self.attempted_hosts.append(host)
+            # retries on the same host and re-prepares come through here without
+            # going through send_request(); _on_timeout() must release this stream
+            self._req_id = request_id
             return request_id
         except NoConnectionsAvailable as exc:
             log.debug("All connections for host %s are at capacity, moving to the next host", host)
